@@ -117,6 +117,9 @@ type vpWorld struct {
 	provClosed     bool
 	hung           bool
 	baseGoroutines int
+	scopeFrom      map[int]context.Context // scope -> the context it was created from (nil: the provider's own)
+	preFail        int   // constructor that fails during the preliminary Build of a rebuild scenario only (0 = none)
+	preFailed      bool
 	injErr         []int // constructors that returned an injected error during the current API call
 	injPanic       []int
 	fails          []string
@@ -257,6 +260,12 @@ func (w *vpWorld) showAny(x any) string {
 func (w *vpWorld) monitorInjected(what string, err error) {
 	defer func() { w.injErr, w.injPanic = nil, nil }()
 	if len(w.injErr) == 0 && len(w.injPanic) == 0 {
+		// no constructor failed during this call: the call must not report a constructor failure (a remembered one)
+		var inj *vpInjected
+		var pe *ConstructorPanicError
+		if err != nil && (errors.As(err, &inj) || errors.As(err, &pe)) {
+			w.fail("C15,C08", "%s reports a constructor failure (%q) although no constructor failed during this call", what, err.Error())
+		}
 		return
 	}
 	if err == nil {
@@ -488,6 +497,16 @@ func (w *vpWorld) makeConstructor(r *vpReg) any {
 			if !w.buildDone && w.topo == nil {
 				w.captureTopo(scV.Interface().(*scope).rootProvider)
 			}
+		}
+		if w.preFail == ctor && r.withErr { // fails in the preliminary Build only: the later Build must not remember it
+			w.preFailed = true
+			w.injErr = append(w.injErr, ctor)
+			res := make([]reflect.Value, len(out))
+			for i, t := range out {
+				res[i] = reflect.Zero(t)
+			}
+			res[len(out)-1] = reflect.ValueOf(error(&vpInjected{ctor})).Convert(vpErrType)
+			return res
 		}
 		switch w.beh[[2]int{ctor, inv}] {
 		case "err":
@@ -888,7 +907,80 @@ func (r *vpRun) removeAndReplace(w *vpWorld) {
 
 // register everything, then dump godi's own descriptors as `p desc` lines
 func (r *vpRun) register(w *vpWorld) {
+	r.addRegs(w, w.regs)
+	r.finishRegister(w)
+}
+
+// preBuild: the collection is built once before the scenario proper - with only a prefix of the
+// registrations, or with all of them (a start-up retry), sometimes with a constructor that fails in this
+// preliminary Build only. Build's verdict is a function of the registrations made so far (monitorVerdict);
+// whatever the preliminary Build did is then forgotten by the harness, and the scenario goes on with the same
+// collection: nothing Build computed may survive in the collection (C06: rebuilding gives the same verdict
+// and wiring as a fresh collection; C07/C08: the validation is repeated; C17: Build takes a snapshot).
+func (r *vpRun) preBuild(w *vpWorld, rng *rand.Rand) {
+	r.stats["prebuild"]++
+	w.preFail, w.preFailed = 0, false
+	if rng.Intn(3) == 0 {
+		var cands []int
+		for _, reg := range w.regs {
+			if reg.added && reg.life == Singleton && reg.withErr && reg.form != "inst" {
+				cands = append(cands, reg.idx+1)
+			}
+		}
+		if len(cands) > 0 {
+			w.preFail = cands[rng.Intn(len(cands))]
+		}
+	}
+	var err error
+	var prov Provider
+	panicked := guard(w, "Build", func() { prov, err = w.coll.Build() })
+	if !w.hung && !panicked {
+		w.monitorInjected("Build", err)
+		r.monitorVerdict(w, err)
+		if err == nil {
+			r.stats["prebuild_ok"]++
+		} else {
+			r.stats["prebuild_err"]++
+		}
+		if w.preFailed {
+			r.stats["prebuild_injected_failure"]++
+			if err == nil {
+				w.fail("C15", "Build returned nil although singleton constructor %d returned an error", w.preFail)
+			}
+		}
+	}
+	_ = prov // not closed: a registered instance value must not be closed by a provider the scenario does not follow
+	// forget the preliminary Build
+	w.preFail, w.preFailed = 0, false
+	w.calls = map[int]int{}
+	w.topo = nil
+	w.evs, w.closes, w.all = nil, nil, nil
+	for k, b := range w.byInst {
+		keep := false
+		for _, reg := range w.regs {
+			if reg.form == "inst" && reg.inst == b {
+				keep = true
+			}
+		}
+		if !keep {
+			delete(w.byInst, k)
+		}
+	}
+	w.singletonOf, w.scopedOf, w.handed = map[string]*vpBase{}, map[string]*vpBase{}, map[*vpBase]string{}
+	w.ctxSeen = map[int]context.Context{}
+	w.injErr, w.injPanic = nil, nil
+	w.buildDone, w.built = false, false
+	// a preliminary Build that failed has closed the registered instance values it had stored (its own clean-up):
+	// they are the user's objects, not "created by the container"; the scenario proper counts from zero
 	for _, reg := range w.regs {
+		if reg.form == "inst" && reg.inst != nil {
+			reg.inst.closes.Store(0)
+		}
+	}
+}
+
+func (r *vpRun) addRegs(w *vpWorld, regs []*vpReg) {
+	for _, reg := range regs {
 		lo := len(w.coll.allDescriptors)
 		var err error
 		func() {
@@ -919,6 +1011,9 @@ func (r *vpRun) register(w *vpWorld) {
 		}
 		r.stats["reg_form:"+reg.form]++
 	}
+}
+
+func (r *vpRun) finishRegister(w *vpWorld) {
 	r.removeAndReplace(w)
 	// the collection's three views agree (a rejected or removed registration leaves nothing behind in any of them)
 	inAll := map[*Descriptor]bool{}
@@ -1346,10 +1441,51 @@ func (r *vpRun) createScope(w *vpWorld, from int, ctx int) {
 			w.fail("C18", "scope s%d: context value of the creating context not visible", n)
 		}
 	}
+	fromCtx := c
+	if fromCtx == nil && from >= 0 {
+		if h, ok := w.scopes[from]; ok {
+			fromCtx = h.Context()
+		}
+	}
+	if w.scopeFrom == nil {
+		w.scopeFrom = map[int]context.Context{}
+	}
+	w.scopeFrom[n] = fromCtx
+	w.monitorCtxLink(n, sc, fromCtx)
 	r.emit(op, "ok s"+strconv.Itoa(n)+w.flushEvents())
 }
 
 type vpCtxKey struct{}
+
+type vpCause struct{ ctx int }
+
+func (c *vpCause) Error() string { return "harness cancelled context " + strconv.Itoa(c.ctx) }
+
+var vpEpoch = time.Now().Add(1000 * time.Hour)
+
+// monitorCtxLink (C18): the scope's context carries the deadline, the values and the cancellation (with its
+// cause) of the context it was created from - the context passed to CreateScope, or the creating scope's own
+// context when none was passed
+func (w *vpWorld) monitorCtxLink(n int, sc Scope, from context.Context) {
+	if from == nil {
+		return
+	}
+	d1, ok1 := sc.Context().Deadline()
+	d2, ok2 := from.Deadline()
+	if ok1 != ok2 || !d1.Equal(d2) {
+		w.fail("C18", "scope s%d: its context has deadline (%v,%v), the context it was created from has (%v,%v)", n, d1, ok1, d2, ok2)
+	}
+	if v := from.Value(vpCtxKey{}); v != nil && sc.Context().Value(vpCtxKey{}) != v {
+		w.fail("C18", "scope s%d: context value of the context it was created from is not visible", n)
+	}
+	if from.Err() != nil {
+		if sc.Context().Err() == nil {
+			w.fail("C18,C13", "scope s%d: the context it was created from is done, its own context is not", n)
+		} else if c := context.Cause(from); c != context.Cause(sc.Context()) {
+			w.fail("C18", "scope s%d: cancellation cause %v of the context it was created from is not the cause %v its own context reports", n, c, context.Cause(sc.Context()))
+		}
+	}
+}
 
 // the generic helpers Resolve / ResolveKeyed / ResolveGroup are thin wrappers over Get*: for the types
 // below the harness goes through them, so that they take part in the correspondence
@@ -1708,6 +1844,11 @@ func (r *vpRun) closeProvider(w *vpWorld, parentOf map[int]int) {
 
 func (r *vpRun) cancel(w *vpWorld, x int, parentOf map[int]int, scopeCtx map[int]int) {
 	w.cancels[x]()
+	for n, h := range w.scopes {
+		if !w.closedSc[n] { // (a scope closed earlier cancelled its context itself, with the plain cause)
+			w.monitorCtxLink(n, h, w.scopeFrom[n])
+		}
+	}
 	// wait for the watchers of every scope whose context is now done
 	for n, h := range w.scopes {
 		if h.Context().Err() != nil {
@@ -1766,6 +1907,8 @@ type vpGenOpts struct {
 	defects bool // allow cycles / lifetime conflicts / missing dependencies
 	faults  bool // constructor and Close failures
 	forms   bool // multi-output, aliases, instances, initializers
+	rebuild bool // the collection is built once (partially registered, or as a retry) before the scenario proper
+	split   int  // rebuild: number of registrations made before the preliminary Build (0 = chosen at random)
 }
 
 type vpIdentity struct {
@@ -1955,7 +2098,7 @@ func (w *vpWorld) generate(o vpGenOpts) {
 			if !o.defects && reg.life != Scoped && w.identityScoped(idents, t) {
 				continue
 			}
-			if d.group == "" && rng.Intn(5) == 0 {
+			if rng.Intn(5) == 0 { // (an optional group field tolerates nothing a plain group field does not: groups are never absent)
 				d.optional = true
 			}
 			seen[key] = true
@@ -1982,6 +2125,8 @@ func (w *vpWorld) generate(o vpGenOpts) {
 						reg.deps = append([]vpDep{{typ: t.typ, name: t.name}}, reg.deps...)
 					}
 				}
+			case 5: // a built-in type under a name: the built-ins are served for the plain identity only, so this one is missing
+				reg.deps = append(reg.deps, vpDep{typ: []reflect.Type{contextType, scopeType, providerType}[rng.Intn(3)], name: "request", optional: rng.Intn(4) == 0})
 			case 4: // an unkeyed request for a type that is only registered under keys
 				if len(idents) > 0 {
 					t := idents[rng.Intn(len(idents))]
@@ -2061,6 +2206,12 @@ func (w *vpWorld) generate(o vpGenOpts) {
 			w.regs = append(w.regs, &vpReg{life: Lifetime(rng.Intn(3)), form: "ro", outs: []vpOut{first, second}, doomed: true})
 		}
 	}
+	w.materialize()
+	w.generateFaults(o)
+}
+
+// materialize: constructor values and registration options for the registrations described in w.regs
+func (w *vpWorld) materialize() {
 	// renumber (some iterations were skipped)
 	for i, reg := range w.regs {
 		reg.idx = i
@@ -2100,6 +2251,10 @@ func (w *vpWorld) generate(o vpGenOpts) {
 			}
 		}
 	}
+}
+
+func (w *vpWorld) generateFaults(o vpGenOpts) {
+	rng := w.rng
 	if o.faults {
 		for k := rng.Intn(3); k > 0; k-- {
 			reg := w.regs[rng.Intn(len(w.regs))]
@@ -2152,10 +2307,77 @@ func (w *vpWorld) identityScoped(idents []vpIdentity, t vpIdentity) bool {
 func (r *vpRun) scenario(rng *rand.Rand, o vpGenOpts) {
 	w := r.newWorld(rng)
 	w.generate(o)
+	r.runWorld(w, rng, o)
+}
+
+// regroup: a group gains a member between two Builds of one collection. The late member joins through a
+// registration form whose first output is not the group's element type (result-object field, second return
+// value with Group), and it has dependencies of its own, two levels deep; a singleton consumes the group.
+// The second Build must order the late member's dependencies before the consumer exactly as a fresh collection
+// would (C06), and the consumer receives every member in registration order (C04). Runs through the ordinary
+// scenario machinery (model correspondence + monitors).
+func (r *vpRun) regroup(rng *rand.Rand) {
+	w := r.newWorld(rng)
+	p := rng.Perm(len(vpSlots))
+	m, a, c, d, x := p[0], p[1], p[2], p[3], p[4]
+	g := "g" + strconv.Itoa(rng.Intn(3))
+	life := Singleton
+	if rng.Intn(4) == 0 {
+		life = Lifetime(rng.Intn(3))
+	}
+	out := func(slot int, group string) vpOut { return vpOut{typ: slotType(slot), slot: slot, group: group} }
+	early := []*vpReg{
+		{life: life, form: "plain", outs: []vpOut{out(m, g)}},
+		{life: life, form: "plain", outs: []vpOut{out(a, "")}, deps: []vpDep{{typ: slotType(m), group: g}}, useIn: true},
+	}
+	if rng.Intn(2) == 0 {
+		early[0], early[1] = early[1], early[0]
+	}
+	late := []*vpReg{
+		{life: life, form: "plain", outs: []vpOut{out(c, "")}},
+		{life: life, form: "plain", outs: []vpOut{out(d, "")}, deps: []vpDep{{typ: slotType(c)}}},
+	}
+	switch rng.Intn(3) {
+	case 0:
+		late = append(late, &vpReg{life: life, form: "ro", outs: []vpOut{out(x, ""), out(m, g)}, deps: []vpDep{{typ: slotType(d)}}})
+	case 1:
+		late = append(late, &vpReg{life: life, form: "multi", outs: []vpOut{out(x, g), out(m, g)}, deps: []vpDep{{typ: slotType(d)}}})
+	default:
+		late = append(late, &vpReg{life: life, form: "plain", outs: []vpOut{out(m, g)}, deps: []vpDep{{typ: slotType(d)}}})
+	}
+	rng.Shuffle(len(late), func(i, j int) { late[i], late[j] = late[j], late[i] })
+	w.regs = append(early, late...)
+	for _, reg := range w.regs {
+		reg.withErr = rng.Intn(3) == 0
+	}
+	w.materialize()
+	r.stats["regroup"]++
+	r.runWorld(w, rng, vpGenOpts{rebuild: true, split: len(early)})
+}
+
+func (r *vpRun) runWorld(w *vpWorld, rng *rand.Rand, o vpGenOpts) {
 	if len(w.regs) == 0 {
 		return
 	}
-	r.register(w)
+	if o.rebuild && !w.hung {
+		rr := rand.New(rand.NewSource(int64(len(w.regs))*7919 + int64(r.scen)))
+		k := len(w.regs)
+		if rr.Intn(2) == 0 {
+			k = rr.Intn(len(w.regs) + 1)
+		}
+		if o.split > 0 {
+			k = o.split
+		}
+		r.addRegs(w, w.regs[:k])
+		r.preBuild(w, rr)
+		if w.hung {
+			return
+		}
+		r.addRegs(w, w.regs[k:])
+		r.finishRegister(w)
+	} else {
+		r.register(w)
+	}
 	r.stats["services"] += len(w.regs)
 	if !r.build(w) {
 		return
@@ -2213,7 +2435,12 @@ func (r *vpRun) scenario(rng *rand.Rand, o vpGenOpts) {
 					r.stats["ctx_derived_from_scope"]++
 				}
 				pc = context.WithValue(pc, vpCtxKey{}, nctx)
-				cx, cancel := context.WithCancel(pc)
+				// a deadline of its own (far away) and a cancellation cause: both must be visible through every
+				// scope context derived from it, nested scopes created without a context included (C18)
+				pc, _ = context.WithDeadline(pc, vpEpoch.Add(time.Duration(nctx)*time.Hour))
+				cx, cancelCause := context.WithCancelCause(pc)
+				cause := &vpCause{nctx}
+				cancel := func() { cancelCause(cause) }
 				w.ctxs[nctx], w.cancels[nctx], w.ctxPar[nctx] = cx, cancel, par
 				r.emit(fmt.Sprintf("p ctx %d %d", nctx, par), "ok")
 				ctx = nctx
@@ -2304,6 +2531,7 @@ func (r *vpRun) scenario(rng *rand.Rand, o vpGenOpts) {
 
 // reserved types can never be registered, whatever the form (C18 last sentence)
 type vpCtxImpl struct{ context.Context }
+type vpProvImpl struct{ Provider }
 type vpScopeOut struct {
 	Out
 	S  Scope
@@ -2335,8 +2563,21 @@ func (r *vpRun) reservedTypes(rng *rand.Rand) {
 		{"Provider as a named second return", func(c *collection) error {
 			return c.AddSingleton(func() (*PS1, Provider) { return &PS1{}, nil }, Name("x"))
 		}},
+		{"context.Context under a name", func(c *collection) error {
+			return c.AddScoped(func() context.Context { return context.Background() }, Name("request"))
+		}},
+		{"Scope in a group", func(c *collection) error {
+			return c.AddTransient(func() Scope { return nil }, Group("scopes"))
+		}},
+		{"As[context.Context] under a name", func(c *collection) error {
+			return c.AddSingleton(func() *vpCtxImpl { return &vpCtxImpl{context.Background()} }, As[context.Context](), Name("bg"))
+		}},
+		{"Provider in a group through an alias", func(c *collection) error {
+			return c.AddSingleton(func() *vpProvImpl { return &vpProvImpl{} }, As[Provider](), Group("providers"))
+		}},
 	}
-	for _, a := range attempts[:4+rng.Intn(3)] {
+	rng.Shuffle(len(attempts), func(i, j int) { attempts[i], attempts[j] = attempts[j], attempts[i] })
+	for _, a := range attempts[:5+rng.Intn(6)] {
 		before := len(w.coll.allDescriptors)
 		var err error
 		guard(w, "Add*", func() { err = a.add(w.coll) })
@@ -2393,10 +2634,16 @@ func (r *vpRun) reentrant(rng *rand.Rand) {
 			err = e
 		}
 	}
+	var located *vrZ // what the constructor of W finds when it looks the singleton Z up through the container
+	var locErr error
+	locate := rng.Intn(2) == 0
 	if viaScope {
 		add(c.AddSingleton(func(sc Scope) *vrW {
 			x := &vrW{}
 			ws = append(ws, x)
+			if locate {
+				located, locErr = Resolve[*vrZ](sc)
+			}
 			child, e := sc.CreateScope(context.Background())
 			if e != nil {
 				warmErr = e
@@ -2409,6 +2656,9 @@ func (r *vpRun) reentrant(rng *rand.Rand) {
 		add(c.AddSingleton(func(p Provider) *vrW {
 			x := &vrW{}
 			ws = append(ws, x)
+			if locate {
+				located, locErr = Resolve[*vrZ](p)
+			}
 			child, e := p.CreateScope(context.Background())
 			if e != nil {
 				warmErr = e
@@ -2447,6 +2697,13 @@ func (r *vpRun) reentrant(rng *rand.Rand) {
 	}
 	if len(ws) != 1 || len(zs) != 1 {
 		w.fail("C01", "re-entrant Build ran the singleton constructors %d and %d times", len(ws), len(zs))
+	}
+	// a singleton looked up through the container from inside another singleton's constructor: either it is not there
+	// yet (an error) or it is THE singleton - never a second instance
+	if locate {
+		if z, e := Resolve[*vrZ](prov); e != nil || (located != nil && located != z) {
+			w.fail("C01", "the singleton a constructor located through the injected container during Build (err %v) is not the instance the provider resolves (err %v)", locErr, e)
+		}
 	}
 	before := inits // the root scope has run the initializer once
 	if before != 1 {
@@ -2606,6 +2863,331 @@ func (r *vpRun) midCreation(rng *rand.Rand) {
 		}
 	}
 	mu.Unlock()
+	r.emit("p verdict", "ok")
+}
+
+// cancelledCreation (C14, C13): the context passed to CreateScope is cancelled while the scope is being created
+// (inside a scoped initializer, the one place where creation calls user code). Whatever CreateScope returns,
+// once the dust has settled the scope is closed, the provider (and the parent) no longer track it, its
+// disposable has been closed exactly once, and no goroutine is left. Deterministic, monitors only.
+func (r *vpRun) cancelledCreation(rng *rand.Rand) {
+	w := r.newWorld(rng)
+	nested := rng.Intn(2) == 0
+	var mu sync.Mutex
+	var made []*vmD
+	var cancelNow atomic.Value // func()
+	c := w.coll
+	if err := c.AddScoped(func(sc Scope) *vmD {
+		d := &vmD{scope: sc.ID()}
+		mu.Lock()
+		made = append(made, d)
+		mu.Unlock()
+		return d
+	}); err != nil {
+		w.fail("C17", "cancelled-creation scenario: %v", err)
+	}
+	if err := c.AddScoped(func(_ *vmD) {
+		if f, ok := cancelNow.Load().(func()); ok && f != nil {
+			f()
+			time.Sleep(time.Duration(rng.Intn(3)) * time.Millisecond) // let a watcher (if one is running already) act
+		}
+	}); err != nil {
+		w.fail("C17", "cancelled-creation scenario: %v", err)
+	}
+	var prov Provider
+	var err error
+	if guard(w, "Build", func() { prov, err = c.Build() }) || err != nil {
+		w.fail("C08", "cancelled-creation scenario: Build failed: %v", err)
+		r.emit("p verdict", "ok")
+		return
+	}
+	r.stats["cancelled_creation"]++
+	pp := prov.(*provider)
+	var owner interface {
+		CreateScope(context.Context) (Scope, error)
+	} = prov
+	var parent *scope
+	if nested {
+		p, e := prov.CreateScope(nil)
+		if e != nil {
+			w.fail("C08", "cancelled-creation scenario: CreateScope failed: %v", e)
+			r.emit("p verdict", "ok")
+			return
+		}
+		owner, parent = p, p.(*scope)
+	}
+	tracked := func() (int, int) {
+		pp.scopesMu.Lock()
+		n := len(pp.scopes)
+		pp.scopesMu.Unlock()
+		k := 0
+		if parent != nil {
+			parent.childrenMu.Lock()
+			k = len(parent.children)
+			parent.childrenMu.Unlock()
+		}
+		return n, k
+	}
+	baseN, baseK := tracked()
+	rounds := 3 + rng.Intn(4)
+	for i := 0; i < rounds; i++ {
+		ctx, cancel := context.WithCancel(context.Background())
+		cancelNow.Store(func() { cancel() })
+		var sc Scope
+		var e error
+		guard(w, "CreateScope", func() { sc, e = owner.CreateScope(ctx) })
+		cancelNow.Store(func() {})
+		if e == nil && sc != nil {
+			w.waitClosed(sc, "scope whose context was cancelled during its creation")
+			if _, ge := sc.Get(scopeType); ge == nil {
+				w.fail("C13", "a scope whose context was cancelled during its creation is still usable")
+			}
+		} else if e != nil && !errors.Is(e, context.Canceled) && !errors.Is(e, ErrScopeDisposed) {
+			// refusing is legitimate as well; anything else is not
+			var re *ResolutionError
+			if !errors.As(e, &re) {
+				w.fail("C15", "CreateScope with a context cancelled during creation returned %v", e)
+			}
+		}
+		cancel()
+	}
+	deadline := time.Now().Add(3 * time.Second)
+	for {
+		n, k := tracked()
+		if (n <= baseN && k <= baseK) || time.Now().After(deadline) {
+			if n > baseN || k > baseK {
+				w.fail("C14", "after %d scope creations whose context was cancelled during the creation, the provider tracks %d scopes (before: %d) and the parent %d children (before: %d), although every one of these scopes is closed", rounds, n, baseN, k, baseK)
+			}
+			break
+		}
+		time.Sleep(2 * time.Millisecond)
+	}
+	mu.Lock()
+	for _, d := range made {
+		if d.scope == "s1" || (nested && d.scope == "s2") {
+			continue // the root scope's / the parent's own instance
+		}
+		if n := d.closes.Load(); n != 1 {
+			w.fail("C10,C14", "the disposable of scope %s, whose context was cancelled during its creation, was closed %d times", d.scope, n)
+		}
+	}
+	mu.Unlock()
+	prov.Close()
+	r.emit("p verdict", "ok")
+}
+
+// lateOutputs (C10, C13): a constructor with several disposable outputs (multiple returns, result object, one value
+// under two aliases) closes the scope it is being resolved in before it returns - the sequential form of "the
+// construction overlaps a Close". The resolution reports the disposed error and every output that has a Close
+// method is closed exactly once. Monitors only.
+type vlA struct{ closes atomic.Int32 }
+type vlB struct{ closes atomic.Int32 }
+type vlC struct{ closes atomic.Int32 }
+
+func (x *vlA) Close() error { x.closes.Add(1); return nil }
+func (x *vlB) Close() error { x.closes.Add(1); return nil }
+func (x *vlC) Close() error { x.closes.Add(1); return nil }
+func (x *vlA) ia()          {}
+func (x *vlA) ib()          {}
+
+type vlOut struct {
+	Out
+	A *vlA
+	B *vlB `name:"b"`
+	C *vlC `group:"cs"`
+}
+
+func (r *vpRun) lateOutputs(rng *rand.Rand) {
+	w := r.newWorld(rng)
+	c := w.coll
+	armed := false
+	var as []*vlA
+	var bs []*vlB
+	var cs []*vlC
+	closeIt := func(sc Scope) {
+		if armed {
+			sc.Close()
+		}
+	}
+	shape := rng.Intn(3)
+	life := []Lifetime{Scoped, Transient}[rng.Intn(2)]
+	var err error
+	switch shape {
+	case 0:
+		err = c.addService(func(sc Scope) (*vlA, *vlB, *vlC) {
+			a, b, x := &vlA{}, &vlB{}, &vlC{}
+			as, bs, cs = append(as, a), append(bs, b), append(cs, x)
+			closeIt(sc)
+			return a, b, x
+		}, life)
+	case 1:
+		err = c.addService(func(sc Scope) vlOut {
+			a, b, x := &vlA{}, &vlB{}, &vlC{}
+			as, bs, cs = append(as, a), append(bs, b), append(cs, x)
+			closeIt(sc)
+			return vlOut{A: a, B: b, C: x}
+		}, life)
+	default:
+		err = c.addService(func(sc Scope) *vlA {
+			a := &vlA{}
+			as = append(as, a)
+			closeIt(sc)
+			return a
+		}, life, As[vsIA](), As[vsIB]())
+	}
+	if err != nil {
+		w.fail("C17", "late-outputs scenario: a valid registration was rejected: %v", err)
+		r.emit("p verdict", "ok")
+		return
+	}
+	var prov Provider
+	if guard(w, "Build", func() { prov, err = c.Build() }) || err != nil {
+		w.fail("C08", "late-outputs scenario: Build failed: %v", err)
+		r.emit("p verdict", "ok")
+		return
+	}
+	r.stats["late_outputs"]++
+	sc, e := prov.CreateScope(nil)
+	if e != nil {
+		w.fail("C08", "late-outputs scenario: CreateScope failed: %v", e)
+		r.emit("p verdict", "ok")
+		return
+	}
+	armed = true
+	var ge error
+	guard(w, "Get", func() {
+		switch {
+		case shape == 2:
+			_, ge = Resolve[vsIA](sc)
+		case rng.Intn(2) == 0:
+			_, ge = Resolve[*vlA](sc)
+		default:
+			_, ge = ResolveKeyed[*vlB](sc, "b")
+		}
+	})
+	armed = false
+	if shape == 1 && ge == nil {
+		// (multi-return with a key on output B does not exist in shape 0: only the result object names it)
+	}
+	if ge == nil {
+		w.fail("C13", "late-outputs scenario: the resolution whose constructor closed the scope returned no error")
+	} else if !errors.Is(ge, ErrScopeDisposed) && !(shape == 0 && errors.Is(ge, ErrServiceNotFound)) {
+		w.fail("C13,C15", "late-outputs scenario: the resolution whose constructor closed the scope returned %v (want the scope-disposed error)", ge)
+	}
+	prov.Close()
+	count := func(what string, n int32) {
+		if n != 1 {
+			w.fail("C10", "late-outputs scenario (shape %d, %v): output %s of a constructor that returned after its scope was closed has been closed %d times", shape, life, what, n)
+		}
+	}
+	for _, a := range as {
+		count("A", a.closes.Load())
+	}
+	if shape != 2 {
+		for _, b := range bs {
+			count("B", b.closes.Load())
+		}
+		for _, x := range cs {
+			count("C", x.closes.Load())
+		}
+	}
+	r.emit("p verdict", "ok")
+}
+
+// cancelledBuild (C01, C10): the context given to BuildWithContext is cancelled by one of the singleton
+// constructors. Either Build reports the cancellation - then everything it created has been closed exactly once -
+// or it returns a provider - then that provider is complete: every singleton constructor has run exactly once and
+// every singleton identity (plain, named, group member) is resolvable. Monitors only.
+func (r *vpRun) cancelledBuild(rng *rand.Rand) {
+	w := r.newWorld(rng)
+	c := w.coll
+	ctx, cancel := context.WithCancel(context.Background())
+	defer cancel()
+	calls := map[string]int{}
+	var as []*vlA
+	var bs []*vlB
+	var cs []*vlC
+	cancelAt := rng.Intn(4) // which constructor cancels
+	tick := func(name string, k int) {
+		calls[name]++
+		if k == cancelAt {
+			cancel()
+		}
+	}
+	regs := []func() error{
+		func() error { return c.AddSingleton(func() *vlA { tick("A", 0); a := &vlA{}; as = append(as, a); return a }) },
+		func() error {
+			return c.AddSingleton(func(_ *vlA) *vlB { tick("B", 1); b := &vlB{}; bs = append(bs, b); return b }, Name("b"))
+		},
+		func() error {
+			return c.AddSingleton(func() *vlC { tick("C1", 2); x := &vlC{}; cs = append(cs, x); return x }, Group("cs"))
+		},
+		func() error {
+			return c.AddSingleton(func(_ *vlA) *vlC { tick("C2", 3); x := &vlC{}; cs = append(cs, x); return x }, Group("cs"))
+		},
+	}
+	rng.Shuffle(len(regs), func(i, j int) { regs[i], regs[j] = regs[j], regs[i] })
+	for _, f := range regs {
+		if e := f(); e != nil {
+			w.fail("C17", "cancelled-build scenario: a valid registration was rejected: %v", e)
+			r.emit("p verdict", "ok")
+			return
+		}
+	}
+	var prov Provider
+	var err error
+	if guard(w, "BuildWithContext", func() { prov, err = c.BuildWithContext(ctx) }) {
+		r.emit("p verdict", "ok")
+		return
+	}
+	r.stats["cancelled_build"]++
+	closedOnce := func(when string) {
+		for _, a := range as {
+			if n := a.closes.Load(); n != 1 {
+				w.fail("C10", "cancelled-build scenario: singleton A closed %d times %s", n, when)
+			}
+		}
+		for _, b := range bs {
+			if n := b.closes.Load(); n != 1 {
+				w.fail("C10", "cancelled-build scenario: singleton B closed %d times %s", n, when)
+			}
+		}
+		for _, x := range cs {
+			if n := x.closes.Load(); n != 1 {
+				w.fail("C10", "cancelled-build scenario: a group singleton closed %d times %s", n, when)
+			}
+		}
+	}
+	if err != nil {
+		var be *BuildError
+		if !errors.As(err, &be) || !errors.Is(err, context.Canceled) {
+			w.fail("C15", "cancelled-build scenario: Build failed with %v (want a BuildError wrapping context.Canceled)", err)
+		}
+		closedOnce("by a Build that reported the cancellation")
+		r.emit("p verdict", "ok")
+		return
+	}
+	for _, name := range []string{"A", "B", "C1", "C2"} {
+		if calls[name] != 1 {
+			w.fail("C01", "cancelled-build scenario: Build returned a provider although the constructor of singleton %s has run %d times", name, calls[name])
+		}
+	}
+	if _, e := Resolve[*vlA](prov); e != nil {
+		w.fail("C01,C08", "cancelled-build scenario: Build returned a provider whose singleton A does not resolve: %v", e)
+	}
+	if _, e := ResolveKeyed[*vlB](prov, "b"); e != nil {
+		w.fail("C01,C08", "cancelled-build scenario: Build returned a provider whose named singleton B does not resolve: %v", e)
+	}
+	if l, e := ResolveGroup[*vlC](prov, "cs"); e != nil || len(l) != 2 {
+		w.fail("C01,C08", "cancelled-build scenario: Build returned a provider whose singleton group does not resolve: %d members, %v", len(l), e)
+	}
+	if sc, e := prov.CreateScope(nil); e == nil {
+		if l, e := ResolveGroup[*vlC](sc, "cs"); e != nil || len(l) != 2 {
+			w.fail("C01,C08", "cancelled-build scenario: the singleton group does not resolve from a scope: %d members, %v", len(l), e)
+		}
+	}
+	prov.Close()
+	closedOnce("after Provider.Close")
 	r.emit("p verdict", "ok")
 }
 
@@ -2974,7 +3556,7 @@ func TestVerifCore(t *testing.T) {
 		wb.Flush()
 		os.WriteFile(filepath.Join(out, "cur.txt"), []byte(strconv.Itoa(it)), 0o644)
 		rng := rand.New(rand.NewSource(seed*1000003 + int64(it)))
-		o := vpGenOpts{n: 2 + rng.Intn(7), forms: it%2 == 1, faults: it%3 == 2, defects: it%5 == 4}
+		o := vpGenOpts{n: 2 + rng.Intn(7), forms: it%2 == 1, faults: it%3 == 2, defects: it%5 == 4, rebuild: it%7 == 3}
 		if it%50 == 7 {
 			r.reservedTypes(rng)
 			continue
@@ -2997,6 +3579,22 @@ func TestVerifCore(t *testing.T) {
 		}
 		if it%50 == 47 {
 			r.siblingRemoved(rng, it/50+int(seed))
+			continue
+		}
+		if it%50 == 13 || it%50 == 31 {
+			r.regroup(rng)
+			continue
+		}
+		if it%50 == 3 {
+			r.cancelledCreation(rng)
+			continue
+		}
+		if it%50 == 9 || it%50 == 29 {
+			r.lateOutputs(rng)
+			continue
+		}
+		if it%50 == 17 {
+			r.cancelledBuild(rng)
 			continue
 		}
 		r.scenario(rng, o)
